@@ -4,7 +4,7 @@
 (* adjacent) is printed once with the verdict of the reference parser and, *)
 (* when valid, the value: members (as Contains table / Dynamic), every     *)
 (* canonical list with those members, and the list the transcribed         *)
-(* ParseSet yields.  Init picks the first two tokens, one Next step picks  *)
+(* ParseSet yields.  Init picks the first three tokens, one Next step picks  *)
 (* the rest, so that the workers share the enumeration.                    *)
 EXTENDS NumSet, Json
 
@@ -32,14 +32,14 @@ Vector(toks) ==
         dyn |-> FALSE, con |-> <<>>]
 
 PInit == /\ Init        \* the set machine itself is idle here
-         /\ pre \in {p \in SeqsUpTo(2) : LexOK(p)}
+         /\ pre \in {p \in SeqsUpTo(3) : LexOK(p)}
          /\ done = FALSE
 
 PNext ==
   /\ done = FALSE
   /\ done' = TRUE
   /\ UNCHANGED vars
-  /\ \E suf \in (IF Len(pre) = 2 THEN SeqsUpTo(MaxLen - 2) ELSE {<<>>}) :
+  /\ \E suf \in (IF Len(pre) = 3 THEN SeqsUpTo(MaxLen - 3) ELSE {<<>>}) :
        /\ LexOK(pre \o suf)
        /\ pre' = pre \o suf
        /\ PrintT(<<"T", ToJson([max |-> Max, gaps |-> Ascending(Gaps), p |-> Vector(pre')])>>)
